@@ -363,6 +363,23 @@ def roundAmount (dflt : Rounding) (a : Rat) (isDec : Bool) (n : Int) : Rat :=
 def qtyRound (s : QState) (dflt : Rounding) (a : Qty) (isDec : Bool) (n : Int) : Except Err Qty :=
   s.reg.mkQty dflt (some (s.reg.unitCls a.unit)) (roundAmount dflt a.amount isDec n) a.unit
 
+/-- `unit * k` / `k * unit` (`Unit.__mul__` / `__rmul__` with a plain number of
+any kind, an SI prefix counting as its factor): the quantity `k unit` -/
+def unitTimesNum (s : QState) (dflt : Rounding) (u : Nat) (k : Rat) : Except Err Val :=
+  (s.reg.mkQty dflt none k u).map Val.qty
+
+/-- `unit / k`: the quantity `1/k unit` -/
+def unitDivNum (s : QState) (dflt : Rounding) (u : Nat) (k : Rat) : Except Err Val :=
+  if k = 0 then .error .ZeroDivisionError else (s.reg.mkQty dflt none (1 / k) u).map Val.qty
+
+/-- `k / unit` (`Unit.__rtruediv__`): `k * unit ** -1` -/
+def numDivUnit (s : QState) (dflt : Rounding) (k : Rat) (u : Nat) : Except Err Val :=
+  match s.powUnit dflt u (-1) with
+  | .error e => .error e
+  | .ok (.qty x) => s.qtyScale dflt x k
+  | .ok (.num x) => .ok (.num (k * x))
+  | .ok v => .ok v
+
 /-- `Cls(text[, unit])` / `Quantity(text[, unit])` once the text is split into
 amount and (optional, already looked-up) symbol unit `su`; `cls = none` is the
 generic factory, `uarg` the explicit unit argument -/
